@@ -25,8 +25,9 @@ except ImportError:
 
 def _get_color_from_string(a_string: str, colors: bool):
     if colors:
-        hash_str = f"{crc32(a_string.encode('utf-8'))}"
-        return f"#{hash_str[2:8]}"
+        # a 6 hexadecimal digits color, whatever the checksum is (the decimal
+        # digits of a small checksum, e.g. 0 for the empty string, gave "#")
+        return f"#{crc32(a_string.encode('utf-8')) & 0xFFFFFF:06X}"
     return "#F0F0F0"
 
 
